@@ -68,6 +68,20 @@ def run(ctx):
                     if a in INTS and b in INTS:
                         r.check(not f1 and not f2, "eq/%s-%s/integer-kinds-comparable" % (a, b), where(eq_b), "integers of different width/sign can be equal (numeric spellings of one value)",
                                 "eq(%s, %s) is constant false: the same integer written so that it parses to different kinds (e.g. a big literal) is never equal to itself" % (a, b))
+        # where the answer for a signed and an unsigned integer is plain arithmetic (a sign test and a cast instead of a checked conversion) it can be
+        # evaluated: zero is the one integer the tokenizer delivers in both kinds (`0` is UInt, `-0` is Int), the boundary a sign test gets wrong
+        vix = {v["name"]: k for k, v in enumerate(f.adt("event::NumericValue")["variants"])}
+        for (ka, kb) in (("Int", "UInt"), ("UInt", "Int")):
+            for x, y, want in ((0, 0, True), (1, 1, True), (5, 7, False), (-1, 1, False) if ka == "Int" else (1, -1, False)):
+                res = eq_b.eval_const({(1, "variant"): vix[ka], (1, (0,)): x, (2, "variant"): vix[kb], (2, (0,)): y})
+                decided = len(res) == 1 and list(res)[0] in (True, False, 0, 1)
+                if decided:
+                    got = bool(list(res)[0])
+                    r.check(got == want, "eq/%s-%s/(%d,%d)" % (ka, kb, x, y), where(eq_b), "%s(%d) == %s(%d) is %s" % (ka, x, kb, y, want),
+                            "NumericValue::eq(%s(%d), %s(%d)) is %s: %s - `0` and `-0` (the tokenizer reads them as UInt and Int) compare as different events although they parse to the same value and hash alike" % (
+                                ka, x, kb, y, got, "equal integers of different kinds are unequal" if want else "different integers are equal"))
+                else:
+                    r.ok("eq/%s-%s/(%d,%d)" % (ka, kb, x, y), where(eq_b), "decided by a library conversion (not evaluated)")
         n = 0
         for b in [eq_b] + list(f.closures_of(eq_b.defpath)):
             for c in b.calls:
